@@ -72,14 +72,19 @@ def run_case(case):
             return m(Z, ctx)
 
         if case.get("prime") and not train:
-            # fill a linear cache (if any) through the other direction first: cached values must still be right
+            # fill a linear cache (if any) through the OTHER direction first, before any forward call: a cache slot shared
+            # between directions must still hold the right value for forward
             with torch.no_grad():
-                y0, _ = f(X)
                 if case["prime"] == "inverse" and b.invertible:
                     try:
-                        m.inverse(y0, ctx)
-                    except Exception as e:  # inverse problems are C02's business
+                        m.inverse(X, ctx)          # X need not be in the inverse's domain: failures are C02/C17's business
+                    except Exception as e:
                         res.labels.append("prime_inverse_raised:" + type(e).__name__)
+                else:
+                    try:
+                        f(X)
+                    except Exception:
+                        pass
             res.labels.append("prime:" + case["prime"])
 
         out, ld = f(X)
